@@ -153,6 +153,10 @@ class BlockChain(object):
         def iterate() -> Generator[tuple[Any, Any], None, None]:
             for header in header_iter:
                 h = header.hash()
+                idx = self.hash_to_index_lookup.get(h)
+                if idx is not None and idx < len(self._locked_chain):
+                    # already part of the locked chain: nothing to track
+                    continue
                 self.weight_lookup[h] = header.difficulty
                 self.unlocked_block_storage[h] = header
                 yield h, header.previous_block_hash
